@@ -203,6 +203,36 @@ fn read_alloc_bytes<'tcx>(
     }
 }
 
+/// raw bytes (hex) of a small constant allocation and, one or two levels deep, of the
+/// allocations it points to — lets rules read promoted constants such as `&Some(&b'%')` or
+/// `&(b'0'..=b'7')` without interpreting their type
+fn dump_alloc<'tcx>(tcx: TyCtxt<'tcx>, alloc_id: rustc_middle::mir::interpret::AllocId, depth: usize) -> J {
+    let mut o = J::obj();
+    if let Some(rustc_middle::mir::interpret::GlobalAlloc::Memory(a)) = tcx.try_get_global_alloc(alloc_id) {
+        let a = a.inner();
+        let n = a.len().min(64);
+        let raw = a.inspect_with_uninit_and_ptr_outside_interpreter(0..n);
+        let mut hex = String::new();
+        for b in raw {
+            let _ = write!(hex, "{:02x}", b);
+        }
+        o.set("hex", J::Str(hex));
+        o.set("len", J::Int(a.len() as i128));
+        if depth > 0 {
+            let mut kids = Vec::new();
+            for (po, pp) in a.provenance().ptrs().iter() {
+                let mut k = dump_alloc(tcx, pp.alloc_id(), depth - 1);
+                k.set("at", J::Int(po.bytes() as i128));
+                kids.push(k);
+            }
+            if !kids.is_empty() {
+                o.set("refs", J::Arr(kids));
+            }
+        }
+    }
+    o
+}
+
 fn bytes_to_json(b: &[u8]) -> J {
     // bytes as latin-1 string: every char is one byte; the JSON writer escapes non-ASCII as \u00XX
     J::Str(b.iter().map(|&c| c as char).collect())
@@ -305,6 +335,7 @@ fn const_json<'tcx>(tcx: TyCtxt<'tcx>, env: TypingEnv<'tcx>, c: &mir::ConstOpera
                     }
                     if !o.has("bytes") && !o.has("str") {
                         o.set("ptr", J::Bool(true));
+                        o.set("alloc", dump_alloc(tcx, prov.alloc_id(), 2));
                     }
                 }
             }
@@ -343,6 +374,7 @@ fn const_json<'tcx>(tcx: TyCtxt<'tcx>, env: TypingEnv<'tcx>, c: &mir::ConstOpera
             }
             if !o.has("bytes") {
                 o.set("indirect", J::Bool(true));
+                o.set("alloc", dump_alloc(tcx, alloc_id, 2));
             }
         }
     }
